@@ -355,16 +355,13 @@ def explore(ctx):
                   'B': {'n': list(ns), 'files<=': 3, 'chunk': '1..n+1', 'spike_vector_len<=': maxlen,
                         'cbin': 'chunk{1,2,3,n} x threads{1,2,3} x cache'},
                   'C': {'dtypes': ['int16', 'float32', 'float64'], 'factors': list(FACTORS)}}
-    try:
-        from . import c03_model
-        c03_model.explore(ctx)
-    except ImportError:
-        pass
+    from . import c03_model
+    c03_model.explore(ctx)
 
 
 def replay(record):
     imports()
-    if record.get('subcheck', '').startswith('model'):
+    if record.get('subcheck', '') == 'model-routes':
         from . import c03_model
         return c03_model.replay(record)
     return core.replay_case(run_case, record)
